@@ -39,12 +39,14 @@ def run(ctx):
         ctx.current_config = cfg
         M = ctx.model(cfg)
         units = families.subwaker_units(M)
+        # the who-may-arm audit and the primitive tables do not depend on where a step sits on a path: they run first, so
+        # that a body the path rules cannot read (protocol steps inside a closure -> inconclusive) does not hide them
+        rule_ownwaker(ctx, M)
+        prims.check_bits(ctx, M, "C16.BITS")
+        rule_armers(ctx, M, units)
         for u in units:
             rule_gate(ctx, u)
             rule_cfg(ctx, M, u)
-        rule_armers(ctx, M, units)
-        rule_ownwaker(ctx, M)
-        prims.check_bits(ctx, M, "C16.BITS")
         ctx.floor("C16.GATE", cfg, 4 * 78 + 10)
         ctx.floor("C16.ARMERS", cfg, 78 + 12 + 6)
         ctx.floor("C16.OWNWAKER", cfg, 5)
@@ -139,7 +141,7 @@ def rule_armers(ctx, M, units):
                 elif u is not None and u.family in ("merge", "stream_group"):
                     # must be in the Ready(Some) region of the poll of the same child
                     ok = False
-                    for cp in u.cps:
+                    for cp in u.cps_unchecked:
                         if common.same_index(u, cp, idx, s.block):
                             ed = bi.outcome_edges(cp.site, "Ready", "Some")
                             if ed and bi.guarded_by(s.block, ed):
@@ -251,6 +253,15 @@ def rule_ownwaker(ctx, M):
             if s.callee.name == "get" and s.arg(0) == ("field", ("param", 1), "wakers") and s.arg(1) == ("param", 2):
                 okg = True
         ctx.check(okg, "C16.OWNWAKER", g.def_, "get(i) returns wakers[i]", site=g.span)
+    # the per-child waker remembers its position at full width: a narrower `id` field aliases children beyond its range
+    for adt in M.F.d["adts"]:
+        if adt["path"].split("::")[-1] in ("InlineWakerArray", "InlineWakerVec") and "no_std" not in adt["path"]:
+            for v in adt["variants"]:
+                for fld in v["fields"]:
+                    if fld["name"] == "id":
+                        t = M.F.types[fld["ty"]]
+                        ctx.check(t.get("k") == "prim" and t.get("name") == "usize", "C16.OWNWAKER", adt["path"],
+                                  "the waker's child position `id` is stored as a usize", site=adt.get("span"))
     # WakerVec::resize: ids of new wakers continue at the old length
     r = prims.find_method(M, "waker_vec::WakerVec", "resize")
     ctx.require(r is not None, "WakerVec::resize")
